@@ -297,7 +297,7 @@ def run_cases(mod, ctx: Ctx, shard: int, nshards: int,
             run_one(mod, ctx, name, idx)
 
 
-class CaseTimeout(Exception):
+class CaseTimeout(BaseException):
     """A single case exceeded its generous wall-clock watchdog: inconclusive."""
 
 
